@@ -1441,12 +1441,32 @@ fn script_too_complex(
 
 // Gather all explicitly-used registers in the source. (so that we can avoid using them for scratch)
 fn get_explicitly_used_regs(func_body: &[Sp<LowerStmt>]) -> BTreeMap<RegId, Span> {
-    func_body.iter()
-        .filter_map(|stmt| match &stmt.value {
-            LowerStmt::Instr(LowerInstr { args: LowerArgs::Known(args), .. }) => Some(args),
-            _ => None
-        }).flat_map(|args| args.iter().filter_map(|arg| match &arg.value {
-            LowerArg::Raw(raw) => raw.get_reg_id().map(|reg| (reg, arg.span)),
-            _ => None,
-        })).collect()
+    fn visit_arg(arg: &Sp<LowerArg>, out: &mut BTreeMap<RegId, Span>) {
+        match &arg.value {
+            LowerArg::Raw(raw) => {
+                if let Some(reg) = raw.get_reg_id() {
+                    out.insert(reg, arg.span);
+                }
+            },
+            // registers mentioned only in some cases of a difficulty switch are still in use
+            LowerArg::DiffSwitch(cases) => {
+                for case in cases {
+                    if let Some(case) = case {
+                        visit_arg(case, out);
+                    }
+                }
+            },
+            _ => {},
+        }
+    }
+
+    let mut out = BTreeMap::new();
+    for stmt in func_body {
+        if let LowerStmt::Instr(LowerInstr { args: LowerArgs::Known(args), .. }) = &stmt.value {
+            for arg in args {
+                visit_arg(arg, &mut out);
+            }
+        }
+    }
+    out
 }
